@@ -178,6 +178,13 @@ namespace DFS
   {
     const sector_count_type start = start_sector(), end=last_sector();
     unsigned long len = file_length();
+    if (0 == len)
+      {
+	// An empty file occupies no sectors, so there is nothing to
+	// read.  Its start sector might not even exist (an empty file
+	// saved on a full disc starts just beyond the last sector).
+	return true;
+      }
     for (sector_count_type sec = start; sec <= end; ++sec)
       {
 	assert(sec <= end);
